@@ -39,6 +39,8 @@ def make_cases(tier, rng):
     # and its token is never taken); closed by the application after the Kill
     for p_ in (["grpcmux"] if tier == "quick" else ["grpcmux", "grpc", "grpcmux"]):
         cases.append({"name": "l%d" % len(cases), "proto": p_, "tls": "", "launch": rng.choice(["cmd", "runner"]), "ops": ["raw_accept_unserved"] + ([rng.choice(OPS)] if tier != "quick" else [])})
+        if p_ == "grpcmux":
+            cases.append({"name": "l%d" % len(cases), "proto": p_, "tls": "", "launch": "cmd", "ops": ["raw_accept_unserved_twice"]})
     # the plugin is ended by another client (reattached), this one sees it exit and is killed afterwards
     for p_ in ["grpc", "netrpc"]:
         cases.append({"name": "l%d" % len(cases), "proto": p_, "tls": "", "launch": "cmd", "ops": ["broker_p2h", "dispense", "broker_h2p"], "killed_by_other": True})
